@@ -7,8 +7,11 @@ from smtlib import (Table, Signature, read_all, parse_term, parse_model, parse_s
 import gen as G
 
 VERIF = os.path.dirname(os.path.dirname(os.path.abspath(__file__)))
-BIN = os.environ.get("OSMT_BIN", os.path.join(VERIF, "build", "rel", "opensmt"))
-SCRATCH = os.path.join(VERIF, "build", "scratch")
+# VERIF_BUILD / VERIF_EVID / VERIF_REPO redirect build output, evidence and the source tree (used by bin/seedrun to test
+# a seeded change in a scratch worktree without touching /repo or the build of the registered checks)
+BUILD = os.environ.get("VERIF_BUILD") or os.path.join(VERIF, "build")
+BIN = os.environ.get("OSMT_BIN", os.path.join(BUILD, "rel", "opensmt"))
+SCRATCH = os.path.join(BUILD, "scratch")
 
 MAXNUM = 20000      # constants beyond this are not given to TLC (32-bit arithmetic)
 MAXDEN = 720
